@@ -75,8 +75,13 @@ Qed.
 
 Hypothesis Hwf : wf r.
 
-Ltac sym Ho := cbn -[fullname visible url page_url page_obj priv_of is_private taglink is_nil starts_with skipn length]; rewrite ?Ho;
-               cbn -[fullname visible url page_url page_obj priv_of is_private taglink is_nil starts_with skipn length].
+Lemma add_sub_same : forall n k, n + k - n = k.
+Proof. intros. lia. Qed.
+
+(* normal forms: arithmetic on slice bounds, s[0:] *)
+Ltac sym Ho := cbn -[fullname visible url page_url page_obj priv_of is_private taglink is_nil starts_with skipn firstn length text_eqb chain_up];
+               rewrite ?Ho, ?add_sub_same, ?Nat.sub_0_r, ?skipn_O;
+               cbn -[fullname visible url page_url page_obj priv_of is_private taglink is_nil starts_with skipn firstn length text_eqb chain_up].
 
 Lemma parent_lt : forall i o p, get r i = Some o -> o_parent o = Some p -> p < i /\ valid r p.
 Proof.
@@ -146,6 +151,22 @@ Proof.
   - destruct (parent_lt i o p Ho H). split; [lia|assumption].
 Qed.
 
+(* the slice spelling of `u.startswith(p + c)`:  u[len(p):len(p)+1] == c and u[:len(p)] == p *)
+Lemma prefix_slice : forall p u, text_eqb (firstn (length p) u) p = starts_with p u.
+Proof.
+  induction p as [|x p IH]; intros u; [reflexivity|]. destruct u as [|y u]; [reflexivity|].
+  cbn [length firstn text_eqb starts_with]. rewrite IH. now rewrite N.eqb_sym.
+Qed.
+
+Lemma slices_prefix : forall p u c,
+  text_eqb (firstn 1 (skipn (length p) u)) [c] && text_eqb (firstn (length p) u) p = starts_with (p ++ [c]) u.
+Proof.
+  induction p as [|x p IH]; intros u c.
+  - cbn [length skipn firstn app]. destruct u as [|y u]; cbn; [reflexivity|]. now rewrite N.eqb_sym, !andb_true_r.
+  - destruct u as [|y u]; [reflexivity|]. cbn [length skipn firstn app text_eqb starts_with].
+    rewrite <- IH. rewrite (N.eqb_sym y x). destruct (N.eqb x y); [reflexivity|]. cbn. now rewrite andb_false_r.
+Qed.
+
 (* Documentable.url *)
 Theorem code_url : forall fuel i, i + 3 < fuel -> valid r i ->
   run' fuel FUrl i env0 = match page_obj r i with Some _ => Val (VStr (url quote r i)) | None => Err end.
@@ -181,11 +202,17 @@ Proof.
   unfold taglink_tag, taglink, shorten, taglink_args.
   assert (Hflag : t_taglink_drops_hidden table_now = true) by reflexivity. rewrite Hflag.
   unfold c_hash.
+  pose proof (slices_prefix ctx (url quote r o) 35%N) as Hsl.
+  assert (Hnil' : is_nil ctx = true -> ctx = []) by (destruct ctx; [reflexivity|discriminate]).
   destruct (is_nil ctx) eqn:Hnil; destruct (starts_with (ctx ++ [35%N]) (url quote r o)) eqn:Hsw;
+    destruct (text_eqb (firstn 1 (skipn (length ctx) (url quote r o))) [35%N]) eqn:HA;
+    destruct (text_eqb (firstn (length ctx) (url quote r o)) ctx) eqn:HB; cbn [andb] in Hsl; try discriminate Hsl;
     destruct Hlab as [E|[t E]]; subst label; destruct (visible r o) eqn:Hvo;
-    repeat (sym Ho; rewrite ?Hvis, ?Hfn, ?Hurl, ?Hnil, ?Hsw, ?text_eqb_refl);
+    repeat (sym Ho; rewrite ?Hvis, ?Hfn, ?Hurl, ?Hnil, ?Hsw, ?HA, ?HB, ?text_eqb_refl);
     try match goal with |- context [text_eqb ?a ?b] => destruct (text_eqb a b) eqn:Hte end;
-    repeat (sym Ho; rewrite ?Hfn, ?Hnil, ?Hsw, ?Hte);
-    reflexivity.
+    repeat (sym Ho; rewrite ?Hfn, ?Hurl, ?Hnil, ?Hsw, ?HA, ?HB, ?Hte);
+    try reflexivity;
+    (* page_url = '': the slice tests were not what decided *)
+    try (rewrite (Hnil' eq_refl) in *; cbn [length skipn firstn] in *; reflexivity).
 Qed.
 End Code.
